@@ -1,8 +1,12 @@
 /-
 C01 — converting between tensor representations preserves the tensor.
-Only property theorems and non-vacuity examples; proofs are in Lemmas/Convert.lean.
+Only property theorems and non-vacuity examples; proofs are in Lemmas/Convert.lean; the Tucker and
+sum-tensor expansions are proved with the multilinear kernels of C02 (Lemmas/MLTucker.lean,
+Lemmas/MLSumFull.lean) and re-exported here under their C01 names.
 -/
 import PyttbModel.Lemmas.Convert
+import PyttbModel.Lemmas.MLTucker
+import PyttbModel.Lemmas.MLSumFull
 import Mathlib.Algebra.Ring.Defs
 namespace Pyttb
 
@@ -111,6 +115,32 @@ theorem C01_kruskal_full [CommSemiring α] (K : Ktensor α) (hK : K.WF) (hN : 1 
 theorem C01_kruskal_full_pinned_counterexample :
     Ktensor.fullG false (⟨[2], [[[1], [3]]]⟩ : Ktensor Int) = .error .reject ∧
     Ktensor.fullG true (⟨[2], [[[1], [3]]]⟩ : Ktensor Int) = .ok ⟨[2], [2, 6]⟩ := ⟨rfl, rfl⟩
+
+/-! ### Tucker and sum tensors (the statements of `C02_tucker_full` / `C02_sum_full`) -/
+
+/-- `ttensor.full()` (= `core.ttm(all factors)`) of a well-formed Tucker tensor (well-formed core,
+one factor per core mode with as many columns as the core mode has entries): the dense result has
+the Tucker tensor's shape and the entries `Σ_j G[j] ∏ₙ Uₙ[iₙ, jₙ]` (`Ttensor.get`).  Same statement
+and proof as `C02_tucker_full`. -/
+theorem C01_tucker_full [CommSemiring α] (T : Ttensor α) (hT : ML.TuckerWF T) (hN : 1 ≤ T.factors.length) :
+    ∃ D, T.full = .ok D ∧ D.shape = T.shape ∧ D.WF ∧ ∀ i, InBounds D.shape i → D.get i = T.get i :=
+  ML.tucker_full_spec T hT hN
+
+/-- `sumtensor.full()` for parts of any representation (dense, sparse, Kruskal, Tucker) of one shape
+with positive extents: the dense result has that shape and the entries `Σ_p ⟦p⟧[i]`.  Same statement
+and proof as `C02_sum_full`. -/
+theorem C01_sum_full [CommSemiring α] [DecidableEq α] (p0 : ML.Part α) (ps : List (ML.Part α))
+    (hwf : ∀ p ∈ p0 :: ps, ML.PartWF p) (hsh : ∀ p ∈ ps, p.shape = p0.shape) (hpos : ∀ e ∈ p0.shape, 0 < e) :
+    ∃ D, ML.Sumtensor.full (p0 :: ps) = .ok D ∧ D.shape = p0.shape ∧ D.WF ∧
+      ∀ i, InBounds p0.shape i → D.get i = p0.get i + (ps.map fun p => p.get i).sum :=
+  ML.sum_full_spec p0 ps hwf hsh hpos
+
+/-- a 2 × 2 Tucker tensor with a 1 × 2 core is well-formed and expands. -/
+example : ML.TuckerWF (⟨⟨[1, 2], [3, 4]⟩, [[[1], [2]], [[1, 0], [0, 1]]]⟩ : Ttensor Int) := ⟨rfl, rfl, by decide⟩
+example : ∃ D, (⟨⟨[1, 2], [3, 4]⟩, [[[1], [2]], [[1, 0], [0, 1]]]⟩ : Ttensor Int).full = .ok D ∧ D.shape = [2, 2] := by
+  obtain ⟨D, h, hs, _⟩ := C01_tucker_full (⟨⟨[1, 2], [3, 4]⟩, [[[1], [2]], [[1, 0], [0, 1]]]⟩ : Ttensor Int)
+    ⟨rfl, rfl, by decide⟩ (by decide)
+  exact ⟨D, h, hs⟩
 
 example : (⟨[2, 2], [0, 5, 7, 0]⟩ : Dense Int).toSparse = ⟨[2, 2], [[1, 0], [0, 1]], [5, 7]⟩ := by decide
 example : isPermOf ([2] ++ [0, 1]) 3 = true := by decide
